@@ -29,14 +29,24 @@ static void exec(vh::Rng & r, vh::Out & out)
     out.put(vh::Ev("setDataSize").i("n", n0).b("grew", true));           // constructing with a data size allocates the rows
   }
   IV A(est, 1), B(est, 0);
+  typename LeastSquares<R>::Matrix * Jref = nullptr; typename LeastSquares<R>::Vector * Yref = nullptr; int lastN = 0;
   int nproblems = (int)r.range(1, 5);
   for (int p = 0; p < nproblems; ++p) {
     // data sizes: mostly small, sometimes anywhere up to 500, sometimes at / next to the block sizes a vectorised or blocked
     // reduction would use (powers of two, multiples of 128) and at the top of the quantified range
     int n = (int)(r.coin(1, 12) ? r.range(est, 500) : r.coin(1, 10) ? r.pick(IV{16, 32, 64, 127, 128, 129, 255, 256, 257, 383, 384, 385, 499, 500}) :
       r.range(est, est + 30));
-    bool grew = ls->setDataSize(n);
-    out.put(vh::Ev("setDataSize").i("n", n).b("grew", grew));
+    // a caller may keep the references the non-const accessors hand out and write the next problem of the same size through them,
+    // without announcing anything to the solver
+    const bool silent = p > 0 && Jref && r.coin(1, 3);
+    if (silent) {n = lastN;}
+    bool grew = false;
+    if (!silent) {
+      grew = ls->setDataSize(n);
+      out.put(vh::Ev("setDataSize").i("n", n).b("grew", grew));
+      Jref = &ls->getJ(); Yref = &ls->getY();
+    }
+    lastN = n;
     if ((size_t)n > cap) {cap = n;}
     if (grew) {
       bool ones = true;
@@ -98,8 +108,13 @@ static void exec(vh::Rng & r, vh::Out & out)
     std::vector<int> order(n); for (int i = 0; i < n; ++i) {order[i] = i;}
     for (int i = n - 1; i > 0; --i) {std::swap(order[i], order[(size_t)r.range(0, i)]);}
     for (int i : order) {
-      for (int k = 0; k < est; ++k) {ls->getJ()(i, k) = (R)std::ldexp(rows[i][k] * pscale, -cs[k]);}
-      ls->getY()(i) = (R)(y[i] * pscale);
+      if (silent) {
+        for (int k = 0; k < est; ++k) {(*Jref)(i, k) = (R)std::ldexp(rows[i][k] * pscale, -cs[k]);}
+        (*Yref)(i) = (R)(y[i] * pscale);
+      } else {
+        for (int k = 0; k < est; ++k) {ls->getJ()(i, k) = (R)std::ldexp(rows[i][k] * pscale, -cs[k]);}
+        ls->getY()(i) = (R)(y[i] * pscale);
+      }
       out.put(vh::Ev("fill").i("i", i + 1).vec("j", rows[i]).i("y", y[i]));
       if (weighted || w[i] != 1 || r.coin(1, 10)) {
         ls->getW()(i) = (R)w[i];
@@ -128,7 +143,9 @@ static void exec(vh::Rng & r, vh::Out & out)
       out.put(vh::Ev("estimate").str("how", how).vec("x", xi).b("exact", ok));
       if (est <= 2 && n <= 60 && pscale == 1.0 && !colscale) {
         long long var = r.pick(IV{1, 2, 4});
+        // the covariance may be asked for several times (a-priori and a-posteriori variance): every answer is for the last estimate
         auto C = ls->computeEstimateCovariance((R)var);
+        for (int again = (int)r.range(0, 2); again > 0; --again) {C = ls->computeEstimateCovariance((R)var);}
         // J^T J of the rows as the solver now holds them (weights applied once after weightedEstimate)
         double jtj[2][2] = {{0, 0}, {0, 0}};
         for (int i = 0; i < n; ++i) {for (int a = 0; a < est; ++a) {for (int b = 0; b < est; ++b) {
